@@ -303,6 +303,52 @@ def extras():
     es = Const("empty_set", setT(NatType))
     res.append(("set-literal", Eq(ins(x, ins(y, es)), s)))
     res.append(("set-literal-union", Eq(Const("union", TFun(setT(NatType), setT(NatType), setT(NatType)))(ins(x, es), s), s)))
+    # every pair of binder kinds nested with the SAME suggested bound name, the inner body referring to both variables
+    R2 = Var("R", TFun(NatType, NatType, BoolType))
+    allT = TFun(TFun(NatType, BoolType), BoolType)
+
+    def mkb(kind, body_abs):
+        if kind == "lambda":
+            return body_abs
+        if kind == "collect":
+            return Const("collect", TFun(TFun(NatType, BoolType), setT(NatType)))(body_abs)
+        return Const(kind, allT)(body_abs)
+    kinds = ["all", "exists", "exists1", "collect", "lambda"]
+    for k1 in kinds:
+        for k2 in ["all", "exists", "exists1"]:
+            inner = mkb(k2, Abs("x", NatType, R2(Bound(0), Bound(1))))
+            body = Const("conj", TFun(BoolType, BoolType, BoolType))(P(Bound(0)), inner)
+            t = mkb(k1, Abs("x", NatType, body))
+            if k1 == "collect":
+                t = Const("member", TFun(NatType, setT(NatType), BoolType))(y, t)
+            elif k1 == "lambda":
+                t = Eq(t, Var("h", TFun(NatType, BoolType)))
+            res.append(("same-name-%s-%s" % (k1, k2), t))
+    # literals nested three deep (chains of inferred element types)
+    def lst(T, *xs):
+        r = Const("nil", listT(T))
+        for x_ in reversed(xs):
+            r = Const("cons", TFun(T, listT(T), listT(T)))(x_, r)
+        return r
+
+    def sset(T, *xs):
+        r = Const("empty_set", setT(T))
+        for x_ in reversed(xs):
+            r = Const("insert", TFun(T, setT(T), setT(T)))(x_, r)
+        return r
+    l1 = lst(NatType, x)
+    l2 = lst(listT(NatType), l1)
+    l3 = lst(listT(listT(NatType)), l2)
+    res.append(("list-depth3", Eq(l3, l3)))
+    res.append(("list-depth3-mixed", Eq(lst(listT(listT(NatType)), lst(listT(NatType), lst(NatType, Nat(1))), lst(listT(NatType))), l3)))
+    s1 = sset(NatType, x)
+    s2 = sset(setT(NatType), s1)
+    s3 = sset(setT(setT(NatType)), s2)
+    res.append(("set-depth3", Eq(s3, s3)))
+    xs_ = Var("xs", listT(NatType))
+    xss = Var("xss", listT(listT(NatType)))
+    res.append(("cons-depth3", Eq(lst(listT(listT(NatType)), Const("cons", TFun(listT(NatType), listT(listT(NatType)), listT(listT(NatType))))(
+        Const("cons", TFun(NatType, listT(NatType), listT(NatType)))(x, xs_), xss)), l3)))
     return [(l, t) for l, t in res if l != "skip"]
 
 
@@ -334,6 +380,16 @@ def history(out, pool, rnd):
                     pass
     for (k, uni), txts in texts.items():
         out.emit({"kind": "hist", "t": json.loads(k), "cfg": [uni, 0], "texts": txts, "key": "hist:%s" % txts[0][:100]})
+    # history: a text is parsed while a name is still a variable, THEN the theory is extended in place with a constant of that
+    # name, then a term with the new constant is printed and parsed back
+    try:
+        cname = "verifconst%d" % rnd.randint(0, 9)
+        context.set_context(None, vars={cname: TFun(NatType, NatType), "x": NatType})
+        parser.parse_term("%s x = x" % cname)
+        theory.thy.add_term_sig(cname, TFun(NatType, NatType))
+        roundtrip_term(out, Eq(Const(cname, TFun(NatType, NatType))(x), x), "history-new-constant", configs=CONFIGS[:2])
+    except Exception as e:
+        sys.stderr.write("history-new-constant skipped: %r\n" % (e,))
     # alpha-variants with different inner bound names: each must round trip whatever was printed before
     a = Forall(x, Exists(y, P(x, y)))
     b = Forall(x, Exists(Var("z", NatType), P(x, Var("z", NatType))))
